@@ -1,15 +1,34 @@
 /-
   Model of internal/ast/compiler/prefix_enum_values.go.
   Only objects whose type is an enum are touched (anonymous enums elsewhere are not).
-  Partial operations: `member.Type.Scalar` (nil for a non-scalar member type),
-  `member.Value.(string)` for a string member, `member.Name[0]` for an int64 member.
+  Partial operation left: `member.Type.Scalar` (nil for a non-scalar member type).  The former
+  `member.Value.(string)` / `member.Name[0]` panics were removed by /repo fix aceba4d
+  (`memberNamePreFix` keeps the old behaviour).
 -/
 import Cog.Passes.Common
 namespace Cog.Passes.PrefixEnumValues
 open Cog.IR Cog.Passes
 
-/-- `enumMemberNameFromValue` -/
+/-- Go `member.Value == ""` on an `any`: true only for the string "" (no type assertion) -/
+def isEmptyStrVal : Val → Bool
+  | .str s => s == ""
+  | _ => false
+
+/-- `strings.HasPrefix(s, "-")` / `"+"` -/
+def hasSign (c : Char) (s : String) : Bool := head0 s == some c
+
+/-- `enumMemberNameFromValue` (tree after fix aceba4d: the value is compared, not asserted, and the
+    sign is tested with `strings.HasPrefix`, so an empty name is camel-cased like any other) -/
 def memberName (v : EnumVal) : Outcome String :=
+  if v.kind.startsWith "?" then .panic "PrefixEnumValues: member.Type.Scalar"
+  else if v.kind == "string" && isEmptyStrVal v.value then .ok "None"
+  else if v.kind != "int64" then .ok (ucc v.name)
+  else if hasSign '-' v.name then .ok (ucc ("negative" ++ tail1 v.name))
+  else .ok (ucc v.name)
+
+/-- `enumMemberNameFromValue` as it was before fix aceba4d: `member.Value.(string)` and
+    `member.Name[0]` could panic -/
+def memberNamePreFix (v : EnumVal) : Outcome String :=
   if v.kind.startsWith "?" then .panic "PrefixEnumValues: member.Type.Scalar"
   else
     let isEmptyStr : Outcome Bool :=
